@@ -22,7 +22,8 @@ META = {
         "quick": "dataclasses with 0-3 fields (no default / default / default_factory), flags frozen, eq, order, unsafe_hash, bases "
                  "{none, unslotted dataclass, slotted dataclass, slotted with weakref, slotted parent over an unslotted grandparent}, user __getstate__ / __setstate__ (none, both, __setstate__ alone), the four "
                  "(dict, weakref) combinations - every combination (choice variables, exhaustively enumerated); decoration histories "
-                 "of 1-3 classes over {valid dataclass, same-named frozen dataclass, non-dataclass (fails), same-named subclass of an unslotted dataclass, other name}",
+                 "of 1-3 classes over {valid dataclass, same-named frozen dataclass, non-dataclass (fails), same-named subclass of an unslotted dataclass, other name, a class whose re-creation decorates another class with a similar long name (nested decoration)}; "
+                 "every returned class is checked to be built from the class passed in (fields, frozen, order, name, slots)",
         "thorough": "0-4 fields, histories of 1-4 classes",
     },
     "assumptions": ["field values are fixed distinct ints; two instances per class (equal / differing in the last field)",
@@ -271,8 +272,8 @@ class _Pinned:
 
 
 def make_history(length, timeout):
-    """Decoration histories: any order of valid / same-named / failing / re-decorated classes never raises
-    for a plain-metaclass dataclass."""
+    """Decoration histories: any order of valid / same-named / failing / nested decorations never raises for a
+    plain-metaclass dataclass, and each returned class is built from the class that was passed in."""
 
     def body(**p):
         ch = Chooser([p[f"c{i}"] for i in range(2 * length + 1)])
@@ -283,9 +284,21 @@ def make_history(length, timeout):
             prev = None
             log = []
             for step in range(length):
-                kind = ch.pick(5)
+                kind = ch.pick(6)
                 w = ch.flag()
-                if kind == 0:
+                nested = []
+                if kind == 5:
+                    # decorating the outer class re-creates it, which runs its base's __init_subclass__, which decorates
+                    # another dataclass (nested decoration); long names that share a prefix and a suffix
+                    inner = _mk("PartialRequestPayloadModelForHistory", [("q", int, dataclasses.field(default=0))])
+
+                    def hook(c, _inner=inner, _w=w, _nested=nested, **kw):
+                        _nested.append(_slotted(_inner, dict=False, weakref=_w))
+
+                    base = type("Hook", (), {"__init_subclass__": classmethod(hook), "__module__": MOD.__name__})
+                    cls = _mk("RequestPayloadModelForHistory", [("a", int)], bases=(base,))
+                    nested.clear()
+                elif kind == 0:
                     cls = _mk("H", [("a", int)])
                 elif kind == 1:
                     cls = _mk("H", [("a", int), ("b", int, dataclasses.field(default=1))], frozen=True)
@@ -304,9 +317,21 @@ def make_history(length, timeout):
                     reached()
                     return ("valid_decoration_refused:" + type(e).__name__, "history", _d(log, e))
                 prev = prev_new
+                # the class handed back is built from *this* class: same fields, flags and name
+                for src, new in [(cls, prev_new)] + ([(inner, nested[-1])] if kind == 5 and nested else []):
+                    if ([f.name for f in dataclasses.fields(new)] != [f.name for f in dataclasses.fields(src)]
+                            or new.__dataclass_params__.frozen != src.__dataclass_params__.frozen
+                            or new.__dataclass_params__.order != src.__dataclass_params__.order
+                            or (new.__qualname__, new.__module__) != (src.__qualname__, src.__module__)
+                            or not {f.name for f in dataclasses.fields(src) if f.name in src.__annotations__} <= set(new.__slots__)):
+                        reached()
+                        return ("decorated_class_is_not_built_from_its_input", "history", _d(log, src, dataclasses.fields(new)))
+                if kind == 5 and not nested:
+                    reached()
+                    return ("nested_decoration_not_run", "history", _d(log))
                 if kind != 2:
                     try:
-                        prev(1) if kind in (0, 1, 3) else prev()
+                        prev(1) if kind in (0, 1, 3, 5) else prev()
                     except Exception as e:  # noqa: BLE001
                         reached()
                         return ("decorated_class_unusable:" + type(e).__name__, "history", _d(log, e))
